@@ -177,7 +177,8 @@ def eval_case(c):
         wi = int(rng.integers(2))
         w = worlds[wi]
         sig = [w, w.name, wi][int(rng.integers(3))]
-        how = str(rng.choice(['orb_state_P', 'orb_state_n', 'orb_state_a', 'orb_set_P', 'orb_set_n', 'orb_set_a', 'world_state_P', 'world_state_n', 'world_state_a', 'orb_state_e_P']))
+        how = str(rng.choice(['orb_state_P', 'orb_state_n', 'orb_state_a', 'orb_set_P', 'orb_set_n', 'orb_set_a', 'world_state_P', 'world_state_n', 'world_state_a', 'orb_state_e_P',
+                              'stellar_distance', 'stellar_set_a', 'stellar_set_P', 'stellar_set_n', 'stellar_state_P', 'stellar_state_a']))
         P = val(0.3, 3000.)
         n = days2rads(val(0.3, 3000.))
         a = val(1e8, 1e11)
@@ -191,13 +192,35 @@ def eval_case(c):
             elif how == 'world_state_P': w.set_state(orbital_period=P)
             elif how == 'world_state_n': w.set_state(orbital_frequency=n)
             elif how == 'world_state_a': w.set_state(semi_major_axis=a)
-            else: orb.set_state(sig, eccentricity=val(0.001, 0.3), orbital_period=P)
+            elif how == 'orb_state_e_P': orb.set_state(sig, eccentricity=val(0.001, 0.3), orbital_period=P)
+            # the tidal host's own orbit around the star (stellar orbit), addressed through the host or through one of its satellites
+            elif how == 'stellar_distance': orb.set_stellar_distance([host, host.name, w][int(rng.integers(3))], val(5e10, 1e12))
+            elif how == 'stellar_set_a': orb.set_semi_major_axis(host, val(5e10, 1e12), set_stellar_orbit=True)
+            elif how == 'stellar_set_P': orb.set_orbital_period(host, val(50., 5000.), set_stellar_orbit=True)
+            elif how == 'stellar_set_n': orb.set_orbital_frequency(host, days2rads(val(50., 5000.)), set_stellar_orbit=True)
+            elif how == 'stellar_state_P': orb.set_state(host, orbital_period=val(50., 5000.), set_stellar_orbit=True)
+            else: orb.set_state(host, semi_major_axis=val(5e10, 1e12), set_stellar_orbit=True)
         except Exception as ex:
             hist.append([how, 'EXC ' + type(ex).__name__ + ' ' + str(ex)[:80]])
             V('orbit-update-raised', f'step {step} {how} (signature type {type(sig).__name__}) raised {type(ex).__name__}: {str(ex)[:120]}', history=hist)
             break
         applied += 1
         hist.append([how, type(sig).__name__, wi])
+        # the host's stellar orbit (when it has been set): Kepler III with the star's mass
+        try:
+            sa, sn, sP = orb.get_semi_major_axis(host, for_stellar_orbit=True), orb.get_orbital_frequency(host, for_stellar_orbit=True), orb.get_orbital_period(host, for_stellar_orbit=True)
+        except Exception:
+            sa = sn = sP = None
+        if sa is not None and sn is not None and sP is not None:
+            cnt['orbit_steps_observed'] += 1
+            mu_s = G * (S['star'].mass + host.mass)
+            k = float(np.max(np.abs(np.asarray(sn) ** 2 * np.asarray(sa) ** 3 / mu_s - 1)))
+            pp = float(np.max(np.abs(np.asarray(sP) * np.asarray(sn) * 86400. / (2 * math.pi) - 1)))
+            cnt['relations'] += 2
+            if not (k <= 1e-13):
+                V('stellar-orbit-kepler', f'after step {step} ({how}) the tidal host\'s stellar orbit has n^2 a^3/(G(M*+M)) - 1 = {k:.3e}', history=hist)
+            if not (pp <= 1e-13):
+                V('stellar-orbit-period-frequency', f'after step {step} ({how}) the tidal host\'s stellar orbit has P n /(2 pi) - 1 = {pp:.3e}', history=hist)
         # observe both bodies after every step
         for j, ww in enumerate(worlds):
             aa = orb.get_semi_major_axis(ww)
